@@ -26,6 +26,7 @@ from vf.rigs.env import Env
 from vf.runner import Ob
 
 LEVEL = "other"
+TECHNIQUE = ('symx as case-splitter over the path grammar x entry points on FakeOS (realpath model validated against the OS each run); canonical access log + sentinel oracle')
 EXPLANATION = (
     "symx/z3 exploration of the whole path grammar (<= 4 components incl. '..', '.', empty, absolute, doubled slashes, "
     "sibling-prefix names, symlinks pointing inside/outside) for every storage and read entry point, root reached "
